@@ -133,6 +133,7 @@ pub struct SemWorld<A: SemApi> {
     // generation parameters
     k: usize,
     max_n: usize,
+    scale: usize,
     realism: u64,
     weights: [u32; 10],
     next_id: usize,
@@ -219,7 +220,9 @@ impl<A: SemApi> SemWorld<A> {
 impl<A: SemApi> World for SemWorld<A> {
     fn new(cfg: &Cfg, _env: &mut Env) -> Self {
         let fair = cfg_get(cfg, "fair", 0) != 0;
-        let permits = cfg_get(cfg, "permits", 1) as usize;
+        // every quantity is a multiple of `scale` (byte-budget style semaphores: > 2^32 per request)
+        let scale = cfg_get(cfg, "scale", 1).max(1) as usize;
+        let permits = cfg_get(cfg, "permits", 1) as usize * scale;
         let (root, h) = A::create(fair, permits);
         let observer = if A::SHARED && cfg_get(cfg, "observer", 1) != 0 { Some(A::clone_handle(&h)) } else { None };
         let mut handles: Vec<Option<A::Handle>> = (0..MAX_HANDLES).map(|_| None).collect();
@@ -244,6 +247,7 @@ impl<A: SemApi> World for SemWorld<A> {
             rel_ids: Vec::with_capacity(MAX_IDS),
             k: cfg_get(cfg, "k", 3) as usize,
             max_n: cfg_get(cfg, "max_n", 3) as usize,
+            scale,
             realism: cfg_get(cfg, "realism", 50) as u64,
             weights,
             next_id: 0,
@@ -359,7 +363,7 @@ impl<A: SemApi> World for SemWorld<A> {
             OP_NEW => {
                 if self.prim_alive && !self.used[id] {
                     if let Some(h) = self.handles.iter().flatten().next() {
-                        let n = op.b as usize;
+                        let n = op.b as usize * self.scale;
                         if let Some(f) = env.call("acquire", || A::acquire(h, n)) {
                             self.used[id] = true;
                             self.futs.put(id, f);
@@ -420,7 +424,7 @@ impl<A: SemApi> World for SemWorld<A> {
             OP_TRY => {
                 if self.prim_alive && !self.used[id] {
                     if let Some(h) = self.handles.iter().flatten().next() {
-                        let n = op.b as usize;
+                        let n = op.b as usize * self.scale;
                         let any_pending = env.any_pending(0, usize::MAX);
                         if any_pending {
                             env.fault("barge");
@@ -455,7 +459,7 @@ impl<A: SemApi> World for SemWorld<A> {
             OP_RELEASE => {
                 if self.prim_alive {
                     if let Some(h) = self.handle() {
-                        let n = op.b as usize;
+                        let n = op.b as usize * self.scale;
                         if env.call("release", || A::release(h, n)).is_some() {
                             self.permits += n;
                         }
@@ -546,9 +550,16 @@ fn draw_cfg(rng: &mut Rng) -> Cfg {
     let mut c = Cfg::new();
     c.insert("flavour".into(), rng.below(4) as i64);
     c.insert("fair".into(), rng.below(2) as i64);
-    c.insert("permits".into(), rng.below(4) as i64);
-    c.insert("max_n".into(), rng.range(1, 3));
-    c.insert("k".into(), rng.range(1, 6));
+    // mostly tiny totals (every permit matters), sometimes larger ones with larger requests
+    let permits = if rng.pct(85) { rng.below(4) as i64 } else { *rng.pick(&[5i64, 8, 64]) };
+    c.insert("permits".into(), permits);
+    let max_n = if rng.pct(85) { rng.range(1, 3) } else { *rng.pick(&[4i64, 6, 9]) };
+    c.insert("max_n".into(), max_n);
+    let scale = if cfg!(target_pointer_width = "64") && rng.pct(12) { *rng.pick(&[1i64 << 32, (1i64 << 32) + 1, 1i64 << 48]) } else { 1 };
+    c.insert("scale".into(), scale);
+    // live futures: mostly few (small joint states recur), sometimes many (batch loops, deep heaps / queues)
+    let k = if rng.pct(88) { rng.range(1, 6) } else { *rng.pick(&[8i64, 12]) };
+    c.insert("k".into(), k);
     c.insert("len".into(), rng.range(8, 96));
     c.insert("realism".into(), *rng.pick(&[10, 50, 90]));
     c.insert("observer".into(), rng.pct(70) as i64);
@@ -583,7 +594,7 @@ fn dispatch_replay(cfg: &Cfg, ops: &[Op], env: &mut Env) {
 }
 
 fn shrink_cfg() -> Vec<(&'static str, Vec<i64>)> {
-    vec![("flavour", vec![0, 1, 2]), ("permits", vec![0, 1, 2]), ("observer", vec![1])]
+    vec![("flavour", vec![0, 1, 2]), ("permits", vec![0, 1, 2]), ("observer", vec![1]), ("scale", vec![1])]
 }
 
 fn shrink_op(op: Op) -> Vec<Op> {
